@@ -8,6 +8,7 @@ CONSTANTS
   Depth = 3
   MaxObjs = 3
   Parents = {"none"}
+  Fmts = {"F1", "F2"}
   Variant = "shared_table"
 INVARIANT ExactlyOnce
 INVARIANT RightList
